@@ -14,9 +14,18 @@ Definition expected_writes : list string := ["in-progress"; "finished"; "failed"
 (* the members of the pipeline the runner reads *)
 Definition expected_members : list string := ["name"; "node"; "node_input_connections"; "nodes"].
 
+(* PipelineBuilder.connect(obj, k=n, ...): a Node is wired by its name; anything else -- whatever its type, a str
+   that happens to spell the name of a node included -- becomes a new literal node (the model's BLiteral / EAddLit);
+   default_connection likewise *)
+Definition expected_connect : list (string * string) :=
+  [("isinstance(n, Node)", "cast(Node[Any], n).name"); ("else", "self.literal(n).name")].
+Definition expected_default_connection : list string :=
+  ["if not isinstance(node, Node): node = self.literal(node)"; "self._default_connections[name] = node.name"].
+
 Lemma shape_l :
   runner_fresh_per_run = true /\ init_all_pending = true /\ init_state_empty = true /\
   pipeline_methods_assigning_self = [] /\ handler_reraises_same_exception = true /\
   status_dispatch = expected_dispatch /\ status_writes = expected_writes /\
-  pipeline_members_used = expected_members.
+  pipeline_members_used = expected_members /\
+  connect_wiring = expected_connect /\ default_connection_body = expected_default_connection.
 Proof. repeat split; reflexivity. Qed.
